@@ -66,11 +66,27 @@ object_read_bencode_c_value(const char* first, const char* last, int64_t& value)
 
   value = 0;
 
-  while (first != last && *first >= '0' && *first <= '9')
-    value = value * 10 + (*first++ - '0');
+  // Require at least one digit, and reject values that do not fit in
+  // int64_t rather than letting them wrap; returning 'last' makes the
+  // caller fail.
+  if (first == last || *first < '0' || *first > '9')
+    return last;
 
-  if (neg)
-    value = -value;
+  while (first != last && *first >= '0' && *first <= '9') {
+    int digit = *first++ - '0';
+
+    if (neg) {
+      if (value < (std::numeric_limits<int64_t>::min() + digit) / 10)
+        return last;
+
+      value = value * 10 - digit;
+    } else {
+      if (value > (std::numeric_limits<int64_t>::max() - digit) / 10)
+        return last;
+
+      value = value * 10 + digit;
+    }
+  }
 
   return first;
 }
